@@ -203,7 +203,34 @@ func genMany(g *vh.Gen) {
 	}
 }
 
+// genConfig: the CONFIGURATION as an operator can write it, through the real constructors
+// (storage.FromConfig with the registry of cmd/inbucket): maxkb present as 0 / empty / negative /
+// non-numeric / huge instead of absent, a negative cap, a trailing slash on the file store's path, an
+// unknown parameter. "No limit" spellings must behave as no limit: every delivery retrievable.
+func genConfig(g *vh.Gen) {
+	for _, k := range []int{1, 2, 3, 4, 5, 6, 7} {
+		for rep := 0; rep < g.N(3, 60); rep++ {
+			names := sd.Names(g)
+			if len(names) > 3 {
+				names = names[:3]
+			}
+			capN := 0
+			if k != 6 && g.Chance(0.4) {
+				capN = 1 + g.Intn(3)
+			}
+			p := sd.Profile{MinOps: 6, MaxOps: 24, Sizes: []int{150, 600, 1100, 3000}, PAdd: 0.6}
+			ops := sd.Ops(g, len(names), p)
+			backends := []string{"mem"}
+			if k >= 6 {
+				backends = []string{"mem", "file"}
+			}
+			sd.EmitHistory(g, backends, "direct@cfg"+vh.I(k), capN, 0, names, ops)
+		}
+	}
+}
+
 func genAll(g *vh.Gen) {
+	genConfig(g)
 	genMany(g)
 	gen(g)
 	genBoth(g)
